@@ -113,10 +113,28 @@ def compile_observe(cons, user_vars):
     mentioned = mentioned_scalars(cons)
     cand = [clm.var_info(v) for v in user_vars
             if mentioned & {(int(i), int(v.generation)) for i in np.asarray(v.scalar_variable_ids).ravel()}] + epis
+    # the generation of an epigraph Variable is that of the moment its atom was created (it may differ from the generation of
+    # every user Variable the list mentions: an atom over constants only, created before clear_variable_indices)
+    epi_gen = {}
+    from sageopt.coniclifts.base import ScalarVariable as _SV, ScalarExpression as _SE
+    for c in cons:
+        for attr in ('expr', 'lhs', 'rhs'):
+            e = getattr(c, attr, None)
+            if e is None:
+                continue
+            try:
+                for se in np.asarray(e, dtype=object).flat:
+                    if isinstance(se, _SE):
+                        for a in se.atoms_to_coeffs:
+                            if not isinstance(a, _SV):
+                                ev = a.epigraph_variable
+                                epi_gen[int(ev.id)] = int(ev._generation)
+            except Exception:  # noqa: BLE001
+                pass
     gens = [v['gen'] for v in cand if v['gen'] is not None]
     for v in cand:
         if v['gen'] is None:
-            v['gen'] = gens[0] if gens else 0
+            v['gen'] = epi_gen.get(int(v['ids'][0]), gens[0] if gens else 0)
     dummy = int(ScalarVariable.curr_variable_count()) - 1
     try:
         A, b, K, vmap, variables, svid2col = cl.compile_constrained_system(cons)
